@@ -15,8 +15,8 @@
 #include "hashtable.h" /* only for the HASHTABLE_* return code constants */
 #include "c17_inst.h"
 
-#define MAXK 64
-#define MAXOCC 64
+#define MAXK 96
+#define MAXOCC 96
 #define MAXOPS 96
 #define KIDX_UNKNOWN 0xFEu
 #define ALIAS_B 0x80u
@@ -83,6 +83,8 @@ struct universe {
 	int nfrozen;       /* keys [0,nfrozen) are fillers: inserted by the seed, never operated on afterwards */
 	struct keydef k[MAXK];
 	char label[64];
+	int has_temp;       /* seed script with removals: the fillers whose home is temp_home are put first, then all but the last of them removed, then the other fillers put */
+	uint32_t temp_home;
 };
 
 static uint64_t key_handle(const struct universe *u, int k, int alias_b)
@@ -607,6 +609,49 @@ static uint32_t first_free_distance(const struct c17_inst *in, const struct img 
 }
 
 static unsigned long long g_transitions;
+static unsigned long long g_displacement_judged;
+
+/* Reference decision for the displacement zone, written from the hopscotch algorithm (Herlihy/Shavit/Tzafrir), on the
+ * canonical image only: the free slot found by linear probing is moved towards the home bucket by repeatedly moving an
+ * entry of one of the hop_range-1 buckets in front of it (farthest bucket first, its nearest entry first) into the free
+ * slot.  Returns 1 when this ends with the free slot inside the home bucket's hop range ("a slot within reach can be
+ * freed"), 0 when at some point nothing can be moved. */
+static int ref_displacement_succeeds(const struct c17_inst *in, const struct img *m, uint32_t home, uint32_t ffd)
+{
+	const uint32_t mask = in->table_size - 1;
+	struct hop_ent hop[MAXOCC + 4];
+	int nhop = m->nhop, i;
+	uint32_t freepos = (home + ffd) & mask, dist = ffd;
+	memcpy(hop, m->hop, sizeof(hop[0]) * (size_t)nhop);
+	while (dist >= in->hop_range) {
+		int moved = 0;
+		uint32_t cd;
+		for (cd = in->hop_range - 1; cd > 0 && !moved; cd--) {
+			uint32_t b = (freepos - cd) & mask, bits = 0, k;
+			int hi = -1;
+			for (i = 0; i < nhop; i++) {
+				if (hop[i].slot == b) {
+					hi = i;
+					bits = hop[i].hop;
+				}
+			}
+			for (k = 0; k < cd; k++) {
+				if (bits & (UINT32_C(1) << k)) {
+					bits = (bits & ~(UINT32_C(1) << k)) | (UINT32_C(1) << cd);
+					hop[hi].hop = bits;
+					freepos = (b + k) & mask;
+					moved = 1;
+					break;
+				}
+			}
+		}
+		if (!moved) {
+			return 0;
+		}
+		dist = (freepos - home) & mask;
+	}
+	return 1;
+}
 
 static int live_keys(const struct ctx *c)
 {
@@ -686,6 +731,14 @@ static void step(struct ctx *c, struct op op, const struct img *pre, struct img 
 			} else if (ffd < reach) {
 				set_viol(o, "put-refused-with-free-slot-in-reach", "put refused although the slot at distance %u from home bucket %u is free (add_range %u, hop_range %u)", ffd, home,
 				         in->add_range, in->hop_range);
+			} else if (ffd < in->add_range && !c->lenient && pre->prob == P_NONE) {
+				g_displacement_judged++;
+				if (ref_displacement_succeeds(in, pre, home, ffd)) {
+					set_viol(o, "put-refused-although-displacement-can-free-a-slot",
+					         "put refused in the displacement zone (first free slot at distance %u from home bucket %u, hop_range %u, table size %u) although moving entries towards the free slot "
+					         "frees a slot within reach of the home bucket",
+					         ffd, home, in->hop_range, in->table_size);
+				}
 			}
 		} else {
 			set_viol(o, "put-unexpected-return-code", "put returned %d", o->ret);
